@@ -1,9 +1,10 @@
 #!/bin/bash
 # usage: tools/confirm_mutant.sh <PID> <i> <caught_by...>  : confirms /tmp/mut/<PID>_patch_<i>.diff in a scratch worktree and stores it under seeded/
 pid=$1; i=$2; shift 2; caught="$*"
-name=${pid}_m${i}
+mut=${MUTDIR:-/tmp/mut}; tagp=${MUTTAG:-m}
+name=${pid}_${tagp}${i}
 wt=/tmp/confirm_$name
-patch=/tmp/mut/${pid}_patch_${i}.diff; demo=/tmp/mut/${pid}_demo_${i}.py; meta=/tmp/mut/${pid}_meta_${i}.json
+patch=$mut/${pid}_patch_${i}.diff; demo=$mut/${pid}_demo_${i}.py; meta=$mut/${pid}_meta_${i}.json
 git -C /repo worktree add -q --detach $wt HEAD || exit 2
 cd $wt
 PYTHONPATH=$wt/src /venv/bin/python $demo > /tmp/confirm_${name}_clean.log 2>&1; rc_clean=$?
@@ -14,7 +15,7 @@ if [ $rc_tests -ne 0 ]; then
   # timing assertions of the suite are load-sensitive: rerun just the failed tests on their own
   failed=$(grep '^FAILED ' /tmp/confirm_${name}_tests.log | sed 's/^FAILED \([^ ]*\).*/\1/' | sort -u)
   if [ -n "$failed" ]; then
-    PYTHONPATH=$wt/src timeout 600 /venv/bin/python -m pytest -q -p no:cacheprovider -p no:xdist -W ignore $failed > /tmp/confirm_${name}_tests_rerun.log 2>&1; rc_tests=$?
+    PYTHONPATH=$wt/src timeout 600 /venv/bin/python -m pytest -q -p no:cacheprovider -o addopts= -W ignore $failed > /tmp/confirm_${name}_tests_rerun.log 2>&1; rc_tests=$?
   fi
 fi
 cd /verif
